@@ -207,6 +207,11 @@ def toForward (ch : List (List (K × V))) : Nat × Nat → Nat × Nat
     let use := (ch[li]?.map List.length).getD 0
     if s = use ∧ li + 1 < ch.length then (li + 1, 0) else (li, s)
 
+/-- `n` applications of `f` (e.g. of `operator++`) -/
+def iterN {α : Type} (f : α → α) : Nat → α → α
+  | 0, a => a
+  | n + 1, a => f (iterN f n a)
+
 /-! ### query descents -/
 
 /-- descend with `sel` choosing the child slot; returns (index of the leaf in the chain, its entries) -/
